@@ -96,7 +96,11 @@ def run(ctx, case):
                 m = m.maps[0] if hasattr(m, "maps") else m
                 ctx.state("c20.from_lists_history", tuple(h[0] for h in hist))
                 keys = max(spec["charts"][0]["keys"], 1)
-            p = Pattern.from_note_lists([m.hits, m.holds], include_tails=case["jack"])
+            lists_ = [m.hits, m.holds]
+            if case["chart_seed"] % 3 == 0 and len(m.hits) > 1:
+                half = len(m.hits) // 2
+                lists_ = [m.hits[:half], m.holds, m.hits[half:]]  # e.g. left-hand and right-hand notes kept in two lists of one class
+            p = Pattern.from_note_lists(lists_, include_tails=case["jack"])
         else:
             p = Pattern([n[0] for n in case["notes"]], [n[1] for n in case["notes"]], [T[n[2]] for n in case["notes"]])
         groups = p.group(v_window=case["v"], h_window=case["h"], avoid_jack=case["jack"])
